@@ -461,3 +461,34 @@ def local_closures(fn_or_node):
         if n.get("k") == "let" and isinstance(n.get("init"), dict) and n["init"].get("k") == "closure" and n.get("pat", {}).get("k") == "ident":
             out[n["pat"]["name"]] = n["init"]
     return out
+
+
+def inline_local_closures(body):
+    """A copy of `body` in which calls of closures bound by `let name = |..| ..;` in that body are
+    replaced by the closure's body with the arguments substituted (rules that read what an arm
+    computes must see through a local helper)."""
+    cl = local_closures(body)
+    if not cl:
+        return body
+
+    def rec(n):
+        if isinstance(n, list):
+            return [rec(x) for x in n]
+        if not isinstance(n, dict):
+            return n
+        if n.get("k") == "call" and n["func"].get("k") == "path" and len(n["func"]["segs"]) == 1 and n["func"]["segs"][0] in cl:
+            c = cl[n["func"]["segs"][0]]
+            ps = [p.get("name") for p in c.get("params", []) if isinstance(p, dict)]
+            if len(ps) == len(n.get("args", [])) and all(ps):
+                b = c["body"]
+                while isinstance(b, dict) and b.get("k") == "block" and len(b.get("stmts", [])) == 1 and not b["stmts"][0].get("semi"):
+                    b = b["stmts"][0]
+                for p, a in zip(ps, n["args"]):
+                    a2 = a
+                    while isinstance(a2, dict) and a2.get("k") == "ref":
+                        a2 = a2["e"]
+                    b = _subst(b, p, a2)
+                return rec(b)
+        return {k: (rec(v) if k not in ("loc", "pat", "params") else v) for k, v in n.items()}
+
+    return rec(body)
